@@ -106,6 +106,8 @@ def build_game(pk, params, inp, v, computer=None, stale_prefix="stale"):
         g.set_values(_arr(pk, v))
         g.compute_bounds()
         g.set_known_values([v[S] for S in known], [C(S) for S in known])
+    elif hist == "direct_nostale":
+        g.set_known_values([v[S] for S in known], [C(S) for S in known])
     else:
         g.set_known_values([v[S] for S in known], [C(S) for S in known])
         for S in unknown:
